@@ -215,7 +215,10 @@ def family_section(ctx):
                   {"name": "d", "unicodes": [0x64], "width": Fr(540 + d), "contours": [], "anchors": [],
                    "components": [("a", one + (Fr(3 + d), Fr(0)))] + ([("b", one + (Fr(200), Fr(0)))] if skip_kind == "component" else [])}]
             lb = {"public.skipExportGlyphs": ["b"]} if skip_kind in ("unreferenced", "component", "ufo-lib-only") else {}
-            return {"glyphs": gl, "glyphOrder": ["c", "b", "ghost", "a", "c"], "lib": lb, "kerning": {}, "groups": {},
+            # (one family in three: the masters store DIFFERENT glyph orders -- every compiled master follows its own, the
+            # variable font the default source's)
+            order = ["c", "b", "ghost", "a", "c"] if k == 0 or i % 3 != 1 else ["zeta", "d", "a", "b"]
+            return {"glyphs": gl, "glyphOrder": order, "lib": lb, "kerning": {}, "groups": {},
                     "info": {"familyName": "Fam", "styleName": "M%d" % k, "unitsPerEm": 1000, "ascender": 800, "descender": -200}}
         masters = [master(0), master(2)]
         ds, fonts = dsgen.make_designspace(rng, masters, lib)
@@ -240,10 +243,11 @@ def family_section(ctx):
             continue
         exported = [g for g in masters[0]["glyphs"] if g["name"] not in skipped]
         names = {g["name"] for g in exported}
-        stored = [n for n in dict.fromkeys(masters[0]["glyphOrder"]) if n in names]
-        want_order = [".notdef"] + stored + sorted(names - set(stored))
         want_cmap = {u: g["name"] for g in exported for u in g["unicodes"]}
         for k, tt in enumerate(outs):
+            src = masters[k] if len(outs) == len(masters) else masters[0]
+            stored = [n for n in dict.fromkeys(src["glyphOrder"]) if n in names]
+            want_order = [".notdef"] + stored + sorted(names - set(stored))
             b = io.BytesIO(); tt.save(b); tt = TTFont(io.BytesIO(b.getvalue()))
             if tt.getGlyphOrder() != want_order:
                 ctx.spec_failure(dict(case, font_index=k, glyph_order=tt.getGlyphOrder(), expected=want_order),
